@@ -682,6 +682,13 @@ pub fn run_property(p: &dyn Property, tier: Tier, seed: u64) -> RunResult {
     }
 
     let wall = start.elapsed().as_secs_f64();
+    // (a run that ends at a violation within its first cases may not have met a non-trivial case yet: the failing cases
+    // are the samples then)
+    if all.samples.is_empty() {
+        for f in failures.iter().take(3) {
+            all.samples.push(f.render.clone());
+        }
+    }
     let ev = json!({
         "property_id": id,
         "tier": tier.name(),
